@@ -142,9 +142,16 @@ static void build_format(vh_rng* r, const struct val* vals, int n, char* fmt, si
   for (int i = 0; i < n; i++) {
     o += (size_t)snprintf(fmt + o, cap - o, "%s", vals[i].spec);
     if (i + 1 < n || vh_chance(r, 30)) {
-      int k = 1 + (int)vh_below(r, 2);
-      for (int j = 0; j < k; j++) { fmt[o++] = SEPS[vh_below(r, 8)]; }
-      fmt[o] = 0;
+      if (vh_chance(r, 20)) {
+        /* separators with words and literal percent signs in them (written "%%" in the format) */
+        static const char* LSEPS[] = { "%% of ", "%%; note ", "%%d is not a conversion ", " and ", "%%%% twice ", " =%%= " };
+        o += (size_t)snprintf(fmt + o, cap - o, "%s", LSEPS[vh_below(r, 6)]);
+        vh_count("separators_with_words_or_literal_percent");
+      } else {
+        int k = 1 + (int)vh_below(r, 2);
+        for (int j = 0; j < k; j++) { fmt[o++] = SEPS[vh_below(r, 8)]; }
+        fmt[o] = 0;
+      }
     }
   }
 }
@@ -152,7 +159,7 @@ static void build_format(vh_rng* r, const struct val* vals, int n, char* fmt, si
 static void one_roundtrip(vh_rng* r, int n, int use_show_look) {
   struct val vals[MAXV];
   var objs[MAXV], back[MAXV];
-  char fmt[160];
+  char fmt[400];
   for (int i = 0; i < n; i++) {
     gen_val(r, &vals[i], 1);
     if (use_show_look) { vals[i].spec = "%$"; }
